@@ -78,7 +78,7 @@ CloseUnreg   == Ops.hsfail_closes_sock \/ "unregistered_not_closed" \in Dev   \*
 StopAll      == Ops.stop_tracks_all \/ "unregistered_not_closed" \in Dev      \* ... and Stop closes and awaits every accepted connection
 CloseOnErr   == Ops.writeloop_exit_closes_sock \/ "no_close_after_error" \in Dev    \* as repaired: writeLoop closes the socket whenever it returns
 StopTimers   == "will_timer_outlives_stop" \in Dev                            \* as repaired: Stop cancels pending will timers
-KeepLock     == "c05_relock_window" \in Dev                                   \* as repaired: lockDuplicatedID keeps srv.mu when there is no online client
+KeepLock     == ~Ops.relock_window \/ "c05_relock_window" \in Dev             \* (as repaired) lockDuplicatedID keeps srv.mu when there is no online client
 
 (* --algorithm Conn {
 variables
